@@ -581,6 +581,10 @@ def classify_spec_diff(q, obs):
                 return 'A: resourceless group with only forbidden traits/aggregates or in_tree gets no provider'
             if gr['in_tree'] is not None:
                 return 'B: in_tree of a resourceless group is ignored'
+    for gr in q['groups']:
+        if gr['suffix'] == 0 and gr['in_tree'] is not None:
+            return ('C: in_tree on the unsuffixed group pins the anchor tree: sharing providers of that tree are '
+                    'not offered under other anchors')
     return 'UNCLASSIFIED'
 
 
